@@ -194,8 +194,8 @@ class Engine:
 
     def configs(self, tier, prop):
         if tier == "quick":
-            return [("merge", 260), ("walk", 60)]
-        return [("merge", 12_000), ("walk", 3_000)]
+            return [("merge", 260), ("walk", 60), ("threads", 100)]
+        return [("merge", 12_000), ("walk", 3_000), ("threads", 6_000)]
 
     def chunk_size(self, config, tier):
         return 4
@@ -218,6 +218,16 @@ class Engine:
         self.ref_world = procs.RefWorld()
 
     def gen_plan(self, rng, config, tier, prop):
+        if config == "threads":
+            # two threads of one process assemble two different libraries at the same time, pre-empted at every line of
+            # the merge code (pymoca/ast.py): each must get what it gets alone, for the file order it uses
+            subs = []
+            for _ in range(2):
+                sp = self.gen_plan(rng, "merge", tier, prop)
+                n = 1 + (1 if sp["spec"]["has_q"] and sp["assign"]["q_own"] else 0) + len({(v, 0) for v in sp["assign"]["files"].values()})
+                sp["order_pick"] = rng.randrange(720)
+                subs.append(sp)
+            return {"kind": "threads", "subs": subs, "sched_seed": rng.randrange(1 << 62), "cost": [20, 200]}
         spec = gen_spec(rng)
         # the CasADi backend only resolves package constants referenced by a dotted name
         spec["const_fq"] = True if config == "walk" else rng.random() < 0.3
@@ -235,6 +245,26 @@ class Engine:
                 "order_seed": rng.randrange(1 << 30), "perm": None}
 
     def shrink_candidates(self, plan):
+        if plan.get("kind") == "threads":
+            sch = plan.get("schedule") or {}
+            picks = sch.get("picks", [])
+            if picks:
+                for perm in ([0, 1], [1, 0]):
+                    newp = []
+                    for a in perm:
+                        newp += [a] * picks.count(a)
+                    if newp != picks:
+                        p = copy.deepcopy(plan)
+                        p["schedule"] = {"picks": newp, "costs": []}
+                        yield p
+                sw = [k for k in range(1, len(picks)) if picks[k] != picks[k - 1]]
+                for k in sw[:40]:
+                    newp = list(picks)
+                    newp[k] = newp[k - 1]
+                    p = copy.deepcopy(plan)
+                    p["schedule"] = {"picks": newp, "costs": sch.get("costs", [])}
+                    yield p
+            return
         spec = plan["spec"]
         # fewer classes (keep T/Base which others need)
         for i in range(len(spec["classes"]) - 1, 1, -1):
@@ -297,6 +327,8 @@ class Engine:
         import pymoca.parser as P
 
         self.runs += 1
+        if plan.get("kind") == "threads":
+            return self.run_threads(plan, replay)
         spec, assign = plan["spec"], plan["assign"]
         log = core.EventLog(keep=True)
         counts = {}
@@ -353,6 +385,94 @@ class Engine:
             viol, plan = self.run_walk(plan, spec, files, classes, ref, log, counts, distinct, split_shape, own_idx)
         res = {"property": plan.get("property", "C27"), "verdict": "ok", "plan": plan, "counts": counts,
                "digest": log.digest(), "sim_time_s": 0.0, "steps": 0, "distinct": {"split_perm_entry": sorted(distinct)}}
+        if viol:
+            res["verdict"] = "violation"
+            res["kind"], res["site"], res["shape"], res["detail"] = viol
+            res["log_tail"] = log.tail(30)
+        return res
+
+    # -- two threads assembling libraries at the same time ---------------------------------------------------------
+    def run_threads(self, plan, replay):
+        import sys
+
+        import pymoca.ast as A
+        import pymoca.parser as P
+
+        clock = core.SimClock()
+        core.set_clock(clock)
+        log = core.EventLog(keep=True)
+        counts = {}
+        jobs = []
+        for sp in plan["subs"]:
+            spec, assign = sp["spec"], sp["assign"]
+            classes = model_classes(spec)
+            files = render_split(spec, assign)
+            perms = list(itertools.permutations(range(len(files))))
+            order = list(perms[sp["order_pick"] % len(perms)])
+            parsed = [pickle.dumps(P.parse(txt)) for _rel, txt, _own in files]
+            with self.ref_world:
+                import pymoca.parser as RP
+
+                ref = self.flat_all(pickle.dumps(RP.parse(render_single(spec))), classes)
+            jobs.append({"classes": classes, "files": files, "order": order, "parsed": parsed, "ref": ref, "tree": None})
+        source = core.ReplaySchedule(plan.get("schedule")) if replay else core.SeedSchedule(
+            plan["sched_seed"], plan["cost"][0], plan["cost"][1])
+        sched = core.Sched(clock, source, log, step_cap=60000)
+        ast_file = A.__file__
+
+        def local(frame, event, arg):
+            if event == "line":
+                sched.yield_point("line", "%s:%d" % (frame.f_code.co_name, frame.f_lineno - frame.f_code.co_firstlineno))
+            return local
+
+        def tracer(frame, event, arg):
+            return local if frame.f_code.co_filename == ast_file else None
+
+        def body(job):
+            def run(actor):
+                tree = None
+                for i in job["order"]:
+                    t = pickle.loads(job["parsed"][i])
+                    sched.yield_point("file", job["files"][i][0])
+                    if tree is None:
+                        tree = t
+                    else:
+                        sys.settrace(tracer)
+                        try:
+                            tree.extend(t)
+                        finally:
+                            sys.settrace(None)
+                job["tree"] = pickle.dumps(tree)
+            return run
+
+        for k, job in enumerate(jobs):
+            sched.spawn(k, 0, body(job))
+        try:
+            sched.run()
+        finally:
+            core.set_clock(None)
+        plan = dict(plan, schedule=source.record())
+        viol = None
+        switches = sum(1 for a, b in zip(plan["schedule"]["picks"], plan["schedule"]["picks"][1:]) if a != b)
+        counts["probe:context_switches_inside_merges"] = switches
+        for k, job in enumerate(jobs):
+            if job["tree"] is None:
+                viol = ("exception", "ast:Class._extend", ["threads", "merge_raised"], "thread %d: merging raised" % k)
+                break
+            got = self.flat_all(job["tree"], job["classes"])
+            bad = [c for c in job["classes"] if got[c] != job["ref"][c] and not (got[c][0] == "fail" and job["ref"][c][0] == "fail")]
+            if bad:
+                c = bad[0]
+                viol = ("wrong_result" if got[c][0] == "ok" else "exception", "ast:Class._extend",
+                        ["threads", "class_fails" if got[c][0] == "fail" else "different_model"],
+                        "thread %d of 2 (both merging libraries at the same time), files %s merged in order %s: flatten(%s) gives %s, "
+                        "the single-file library gives %s" % (k, [f[0] for f in job["files"]], [job["files"][i][0] for i in job["order"]],
+                                                             c, got[c] if got[c][0] == "fail" else "a different model",
+                                                             job["ref"][c] if job["ref"][c][0] == "fail" else "the expected model"))
+                break
+        res = {"property": plan.get("property", "C27"), "verdict": "ok", "plan": plan, "counts": counts,
+               "digest": log.digest(), "sim_time_s": clock.elapsed_s(), "steps": sched.total_steps,
+               "distinct": {"split_perm_entry": [canon.digest(("threads", sched.sched_sig.hexdigest()[:16]))]}}
         if viol:
             res["verdict"] = "violation"
             res["kind"], res["site"], res["shape"], res["detail"] = viol
